@@ -21,6 +21,8 @@ import Mathlib.Algebra.Order.Field.Basic
 import Mathlib.Algebra.Order.AbsoluteValue.Basic
 import Mathlib.Algebra.Module.Defs
 
+set_option linter.unusedSectionVars false
+
 namespace OdlModel.C15
 open OdlModel.Interp
 
@@ -167,16 +169,6 @@ example : let ax : List (Axis ℚ) := [⟨3, fun i => ((i * i : Nat) : ℚ), .li
   · exact .cons (by simp) (.cons (by simp) .nil)
   · norm_num [ax, gridPoint]
 
-omit [LinearOrder K] [IsStrictOrderedRing K] in
-theorem C15.affineAt_add (y a0 : V) (xs : List K) (bs : List V) :
-    y + affineAt a0 xs bs = affineAt (y + a0) xs bs := by
-  induction xs generalizing bs with
-  | nil => simp [affineAt]
-  | cons x xs ih =>
-    cases bs with
-    | nil => simp [affineAt]
-    | cons b bs => simp only [affineAt, ← ih]; exact add_left_comm _ _ _
-
 /-- Linear interpolation is exact for affine functions anywhere inside the grid: if the stored
 values are `a0 + Σ_j c_j(idx_j) • b_j` at every valid multi-index, then at every point `p` of
 the hull `linear_interpolator` returns `a0 + Σ_j p_j • b_j` — any dimension, any strictly
@@ -187,6 +179,16 @@ theorem C15.linear_affine_exact (axes : List (Axis K))
     (hv : ∀ idx, ValidIdx axes idx → v idx = affineAt a0 (gridPoint axes idx) bs)
     (p : List K) (hp : InHull axes p) :
     perAxisInterp axes v p = affineAt a0 p bs := by
+  have affineAt_add : ∀ (y a0 : V) (xs : List K) (bs : List V),
+      y + affineAt a0 xs bs = affineAt (y + a0) xs bs := by
+    intro y a0 xs
+    induction xs with
+    | nil => intro bs; simp [affineAt]
+    | cons x xs ih =>
+      intro bs
+      cases bs with
+      | nil => simp [affineAt]
+      | cons b bs => simp only [affineAt, ← ih]; exact add_left_comm _ _ _
   induction hp generalizing v a0 bs with
   | nil =>
     rw [perAxisInterp_nil, hv [] .nil]
@@ -201,10 +203,10 @@ theorem C15.linear_affine_exact (axes : List (Axis K))
       have slice : ∀ k, k < a.n →
           perAxisInterp as (fun idx => v (k :: idx)) xs = a.c k • b + affineAt a0 xs bs := by
         intro k hk
-        rw [C15.affineAt_add]
+        rw [affineAt_add]
         apply ih (fun c hc => hg c (by simp [hc])) _ _ (by simpa using hb)
         intro idx hidx
-        rw [hv (k :: idx) (.cons hk hidx), ← C15.affineAt_add]
+        rw [hv (k :: idx) (.cons hk hidx), ← affineAt_add]
         simp [gridPoint, affineAt]
       rw [hstep, slice i (by omega), slice (i + 1) hi]
       simp only [affineAt]
